@@ -77,6 +77,11 @@ def _tree_cases(rng, root, all_subsets: bool):
     for prune, filt in subsets():
         pf = lambda info: _key(toks, info) in prune  # noqa
         ff = None if filt is None else (lambda info: _key(toks, info) in filt)
+        if rng.random() < 0.35:
+            # callbacks given as callable OBJECTS that happen to be falsy (an empty callable container): they
+            # are callbacks all the same ("None" alone means: no callback)
+            pf = _FalsyCallable(pf)
+            ff = None if ff is None else _FalsyCallable(ff)
         extra = [[A("prune")] + [list(k) for k in sorted(prune, key=str)]]
         if filt is not None:
             extra.append([A("filter")] + [list(k) for k in sorted(filt, key=str)])
@@ -157,6 +162,17 @@ def deep_chain_cases(rng):
     yield Case("deep-chain", None, None, True, f"chain of {depth} nested single-child nodes", oracle_fail=fail,
                sig="dfs|deep-chain")
     del chain, want, root, n
+
+
+class _FalsyCallable:
+    def __init__(self, fn):
+        self.fn = fn
+
+    def __call__(self, info):
+        return self.fn(info)
+
+    def __len__(self):
+        return 0
 
 
 def cases(rng: random.Random, tier: str):
